@@ -150,8 +150,29 @@ def rule_r1(rep, program: Program, et: ExcTypes):
     elif [norm(a) for a in flush[0].args] != ["chain_traces", "chain_stats"]:
         r.violate(PROP, f"_sample_chain:flush-args:{[norm(a) for a in flush[0].args]}", "the flush does not cover both traces and statistics", node=flush[0], file=f.file)
     fl = program.func("samplers", "_flush_memmap_chain_data")
-    n_flush = len([c for c in ast.walk(fl.node) if isinstance(c, ast.Call) and isinstance(c.func, ast.Attribute) and c.func.attr == "flush"])
-    r.inst({"_flush_memmap_chain_data flush calls": n_flush})
+    # which of the two arguments reach a .flush() (directly or through a helper that flushes its argument)
+    flushers = set()
+    for g in fl.module.functions.values():
+        for c in ast.walk(g.node):
+            if isinstance(c, ast.Call) and isinstance(c.func, ast.Attribute) and c.func.attr == "flush" and isinstance(c.func.value, ast.Name) and c.func.value.id in g.params:
+                flushers.add(g.name)
+    root = {p: p for p in fl.params}
+    for _ in range(4):
+        for n in ast.walk(fl.node):
+            if isinstance(n, (ast.For, ast.comprehension)):
+                src = {x.id for x in ast.walk(n.iter) if isinstance(x, ast.Name)} & set(root)
+                if len(src) == 1:
+                    for x in ast.walk(n.target):
+                        if isinstance(x, ast.Name):
+                            root[x.id] = root[next(iter(src))]
+    flushed = set()
+    for c in ast.walk(fl.node):
+        if isinstance(c, ast.Call) and isinstance(c.func, ast.Attribute) and c.func.attr == "flush" and isinstance(c.func.value, ast.Name) and c.func.value.id in root:
+            flushed.add(root[c.func.value.id])
+        if isinstance(c, ast.Call) and isinstance(c.func, ast.Name) and c.func.id in flushers and c.args and isinstance(c.args[0], ast.Name) and c.args[0].id in root:
+            flushed.add(root[c.args[0].id])
+    n_flush = len(flushed & set(fl.params[:2]))
+    r.inst({"_flush_memmap_chain_data flushes": sorted(flushed)})
     if n_flush < 2:
         r.violate(PROP, "_flush_memmap_chain_data:incomplete", "flush helper does not flush both traces and statistics arrays", node=fl.node, file=fl.file)
     return r
